@@ -207,14 +207,23 @@ def run(ctx, col: Collector):
         for flag in (False, True):
             for alt in top_shape(gm.configs[flag])['alts']:
                 k = sum(1 for a in alt.actions if a.kind == 'method')
-                col.check(k == 1, 'C11-copy', f'allow_properties={flag}:{alt.var}:one-instance-action',
-                          'exactly one instance action on this parser\'s copy',
-                          f'top-level alternative `{alt.var}` carries {k} instance-bound actions after _set_syntax ran for both option values: actions '
-                          f'accumulate on a shared element from parse to parse', node=_N(alt), file=alt.file)
+                cons_k = f'allow_properties={flag}:{alt.var}:one-instance-action'
+                if k == 1:
+                    col.ok('C11-copy', cons_k, 'exactly one instance action on this parser\'s copy', node=_N(alt), file=alt.file)
+                elif k > 1:
+                    col.bad('C11-copy', cons_k, f'top-level alternative `{alt.var}` carries {k} instance-bound actions after _set_syntax ran for both option values: actions '
+                            f'accumulate on a shared element from parse to parse', node=_N(alt), file=alt.file)
+                else:
+                    col.unk('C11-copy', cons_k, f'top-level alternative `{alt.var}` carries no action bound to the parser instance: the matched elements are collected by some '
+                            f'other mechanism, which this rule does not follow', node=_N(alt), file=alt.file)
         # the instance syntax is stored on the instance, not on the class or a module-level name
         ss = gm.set_syntax
         tg = [n for n in walk_no_nested(ss.node) if isinstance(n, ast.Assign) and any('_syntax' in norm(t) for t in n.targets)]
-        col.check(bool(tg) and all(norm(t).startswith('self.') for n in tg for t in n.targets), 'C11-copy', '_set_syntax:instance-syntax',
+        def on_self(t) -> bool:
+            if isinstance(t, (ast.Tuple, ast.List)):
+                return all(on_self(x) for x in t.elts if '_syntax' in norm(x))
+            return norm(t).startswith('self.')
+        col.check(bool(tg) and all(on_self(t) for n in tg for t in n.targets), 'C11-copy', '_set_syntax:instance-syntax',
                   'the assembled syntax is stored on the parser instance', 'the assembled syntax is not stored on `self`', node=ss.node, file=ss.file)
     guarded(col, 'C11-copy', 'per-instance-copies', copies)
 
